@@ -49,6 +49,9 @@ func genBase(r *Rng, prop string) *Scenario {
 			// "never panics" also covers what the reader goroutine calls
 			return genC20(r)
 		}
+		if r.chance(0.002) {
+			return genC06Stalled(r) // rare: with a client that deadlocks here every such run costs a watchdog period
+		}
 		return genC06(r)
 	case "C07":
 		return genC07(r)
@@ -231,6 +234,7 @@ func genC06(r *Rng) *Scenario {
 	t += cfg.LatC2BUs + 20
 	npre := int(r.between(0, 6))
 	rel := 0
+	var lateRel []uint16
 	for i := 0; i < npre; i++ {
 		t += r.between(0, 200)
 		if rel < nblocked && r.chance(0.5) {
@@ -247,11 +251,21 @@ func genC06(r *Rng) *Scenario {
 			// a complete inbound QoS 2 exchange (PUBLISH, then its PUBREL)
 			p.QoS, p.ID = 2, uint16(10+i)
 			sc.Script = append(sc.Script, Out{Conn: 1, AtUs: t, Kind: "pkt", Pkt: p, Class: "wellformed-q2"})
+			if r.chance(0.5) {
+				// released only after the rest of the prefix: the client holds the
+				// message while other packets arrive
+				lateRel = append(lateRel, p.ID)
+				continue
+			}
 			t += r.between(1, 200)
 			sc.Script = append(sc.Script, Out{Conn: 1, AtUs: t, Kind: "pkt", Pkt: &Pkt{Type: TPubRel, ID: p.ID}, Class: "wellformed-q2"})
 			continue
 		}
 		sc.Script = append(sc.Script, Out{Conn: 1, AtUs: t, Kind: "pkt", Pkt: p, Class: "wellformed"})
+	}
+	for _, id := range lateRel {
+		t += r.between(1, 200)
+		sc.Script = append(sc.Script, Out{Conn: 1, AtUs: t, Kind: "pkt", Pkt: &Pkt{Type: TPubRel, ID: id}, Class: "wellformed-q2"})
 	}
 	t += r.between(1, 300)
 	o := Out{Conn: 1, AtUs: t, Kind: "raw"}
@@ -425,6 +439,40 @@ func genC06(r *Rng) *Scenario {
 		}
 		sc.Ops = ops
 		o.AtUs = cfg.LatC2BUs + 30
+	}
+	sc.Script = append(sc.Script, o)
+	sc.HorizonUs = t + 20000
+	sc.EndUs = sc.HorizonUs + 2000
+	return sc
+}
+
+// genC06Stalled: the broker stops reading, so one application goroutine is
+// blocked inside Transport.Write (holding the client's write lock) when the
+// malformed packet arrives. Nothing else writes meanwhile: the inbound prefix
+// needs no acknowledgement.
+func genC06Stalled(r *Rng) *Scenario {
+	sc := &Scenario{Cfg: baseCfg(r)}
+	cfg := &sc.Cfg
+	cfg.StateCBReenters = false
+	sc.Ops = append(sc.Ops, Op{AtUs: 0, Actor: 1, Kind: "handle", Handler: 1})
+	sc.Ops = append(sc.Ops, Op{AtUs: 1, Actor: 0, Kind: "connect"})
+	t := rtt(cfg) + 10
+	sc.Ops = append(sc.Ops, Op{AtUs: t, Actor: 2, Kind: "publish", QoS: byte(r.IntN(3)), Topic: "a", Token: "m0"})
+	sc.Faults = append(sc.Faults, Fault{Kind: "writeStall", Conn: 1, N: 1})
+	t += 200
+	for i := 0; i < int(r.between(0, 3)); i++ {
+		t += r.between(0, 100)
+		sc.Script = append(sc.Script, Out{Conn: 1, AtUs: t, Kind: "pkt", Pkt: &Pkt{Type: TPublish, QoS: 0, Topic: topics[r.IntN(len(topics))], Pay: fmt.Sprintf("in%d", i)}, Class: "wellformed"})
+	}
+	t += r.between(1, 300)
+	o := Out{Conn: 1, AtUs: t, Kind: "raw"}
+	switch r.IntN(3) {
+	case 0:
+		o.RawHex, o.Class = hex.EncodeToString(frame(0x36, append(putStr(nil, "a"), 0, 9, 'x'))), "qos3"
+	case 1:
+		o.RawHex, o.Class = hex.EncodeToString(frame(0xf0, nil)), "unknown-type"
+	default:
+		o.RawHex, o.Class = hex.EncodeToString(frame(0x40, []byte{0})), "short-body"
 	}
 	sc.Script = append(sc.Script, o)
 	sc.HorizonUs = t + 20000
@@ -1004,7 +1052,7 @@ func genC12Base(r *Rng) *Scenario {
 		switch step {
 		case 0: // the write itself fails / dead link before the call
 			if cause == "writeerr" || cause == "deadline" {
-				sc.Faults = append(sc.Faults, Fault{Kind: "writeErr", Conn: conn, N: 1, Prefix: int(r.between(0, 5)), Code: byte(r.IntN(2))})
+				sc.Faults = append(sc.Faults, Fault{Kind: "writeErr", Conn: conn, N: 1, Prefix: int(r.between(0, 5)), Code: byte(r.pickI(0, 1, 3))})
 			} else {
 				// incl. a context that is already cancelled when the call is made:
 				// the request is still written once (DUP=0) before the call gives up
@@ -1022,7 +1070,7 @@ func genC12Base(r *Rng) *Scenario {
 			sc.Script = append(sc.Script, Out{Conn: conn, AtUs: t + 300, Kind: "release", Held: -1})
 			if cause == "writeerr" {
 				// PUBREL write fails
-				sc.Faults = append(sc.Faults, Fault{Kind: "writeErr", Conn: conn, N: 2, Prefix: int(r.between(0, 3)), Code: byte(r.IntN(2))})
+				sc.Faults = append(sc.Faults, Fault{Kind: "writeErr", Conn: conn, N: 2, Prefix: int(r.between(0, 3)), Code: byte(r.pickI(0, 1, 3))})
 			} else {
 				genCause(sc, cause, t+1500, me, cli, conn)
 			}
